@@ -2,35 +2,46 @@ import Comdex.Base.Line
 import Comdex.Model.Locker
 /-! Driver for the locker / collector model (property C13).
 
-Lines (tab separated; `<o>` = `ok` | `err` | `panic`; `<S>` = real state projection AFTER the call, see `parseState`):
-  lk.begin     assets=1,2,3  apps=1,2  collk=1:2;2:2
-  lk.fund      u asset x                       <o> <S>
-  lk.whitelist app asset                       <o> <S>
-  lk.create    u app asset amt                 <o> <S>
-  lk.deposit   u app asset id amt  <rw> <obs>  <o> <S>
-  lk.withdraw  u app asset id amt  <rw> <obs>  <o> <S>
-  lk.close     u app asset id      <rw> <obs>  <o> <S>
-  lk.rewardcalc app id             <rw> <obs>  <o> <S>
-  lk.lsr       app asset <rw,rw,…>             <o> <S>
-  lk.feevault  app asset x                     <o> <S>
-  lk.feeclose  app asset interest closing      <o> <S>
-  lk.penalty   app asset x                     <o> <S>
-  lk.aucreturn app asset x                     <o> <S>
-  lk.decrease  app asset x                     <o> <S>
-  lk.getamount app asset x                     <o> <S>
-  lk.surplusfund app asset u x                 <o> <S>
-  lk.v2sclose  app asset u lot                 <o> <S>
-  lk.v2dclose  app asset c d                   <o> <S>
-  lk.sync                                          <S>   (real steps that the model does not describe: bids, vault-side moves)
-`<rw>` = `none` | `fail` | `pay:<ρ>` is the reward the harness predicted from the real keeper BEFORE the call (external input);
-`<obs>` = what the real call then added to `LockerTotalRewardsByAssetAppWise` (`-` when the call failed).
+Lines (tab separated; `<o>` = `ok` | `err` | `panic`; `<S>` = real state projection AFTER the call, see `parseState`;
+`<t>` = `now height` of the block; `<pw>` = `-` | `xbits:ybits:pbits` — the two arguments and the result of the ONE `math.Pow`
+call of `CalculationOfRewards` as IEEE-754 bit patterns (decimal); the driver recomputes both arguments from the model state
+and reports a DIFF if they differ, the result is the only input of the reward computation):
+  lk.begin     assets=1,2,3  apps=1,2  collk=<C entries>
+  lk.fund      u asset x                          <o> <S>
+  lk.whitelist app asset                          <o> <S>
+  lk.wlreward  app asset                          <o> <S>
+  lk.create    <t> u app asset amt                <o> <S>
+  lk.deposit   <t> u app asset id amt <pw> <obs>  <o> <S>
+  lk.withdraw  <t> u app asset id amt <pw> <obs>  <o> <S>
+  lk.close     <t> u app asset id     <pw> <obs>  <o> <S>
+  lk.rewardcalc <t> app id            <pw> <obs>  <o> <S>
+  lk.lsr       <t> app asset lsr sthr dthr lot dlot <pw,pw,…>  <o> <S>
+  lk.feevault  app asset x                        <o> <S>
+  lk.feeclose  app asset interest closing         <o> <S>
+  lk.penalty   app asset x                        <o> <S>
+  lk.aucreturn app asset x                        <o> <S>
+  lk.decrease  app asset x                        <o> <S>
+  lk.getamount app asset x                        <o> <S>
+  lk.surplusfund app asset u x                    <o> <S>
+  lk.v2sclose  app asset u lot                    <o> <S>
+  lk.v2dclose  app asset c d                      <o> <S>
+  lk.config    amap app asset surplus debt active | esm app on | kill app on | english app on      <o> <S>
+  lk.activate  gen(1|2) app:asset;app:asset;…     <o> <S>   (one begin-block: x/auction BeginBlocker resp. liquidationsV2 BeginBlocker;
+                                                             the keys are the auction-mapping entries in store order)
+  lk.sync                                             <S>   (real steps that the model does not describe: bids, vault-side moves)
+`<obs>` = what the real call added to `LockerTotalRewardsByAssetAppWise` (`-` when the call failed); compared with the reward
+the model computed.
 
-`<S>` = `L=id:owner:app:asset:net:ret;…|K=app:asset:deposited:id,id,…;…|F=app:asset:net;…|B=acct:asset:amount;…`
-with `acct` ∈ `u<n>` | `locker` | `collector`, every list sorted by key, zero balances omitted.
+`<S>` = `L=id:owner:app:asset:net:ret:bh:bt;…|K=app:asset:deposited:id,id,…;…|F=app:asset:net;…|B=acct:asset:amount;…|
+T=id:app:raw;…|C=app:asset:lsr:bh:bt:sthr:dthr:lot:dlot;…|W=app:asset;…`
+with `acct` ∈ `u<n>` | `locker` | `collector`, every list sorted by key, zero balances omitted; `T` = reward trackers (raw 10^-18),
+`C` = collector lookup table, `W` = (app, asset) pairs whitelisted for internal rewards; further
+`|A=app:asset:surplus:debt:active;…|E=apps with ESM executed|X=apps with kill switch on|G=apps with English auctions activated`.
 
 Outputs: `DIFF` (model ≠ code: outcome or any field of the projection), `MON` (a property monitor is false on the REAL state /
 REAL call), `BAD` (protocol). After every line the model state is replaced by the real one, so one divergence is reported once.
-Monitor names: deposited_eq_sum, locker_custody, withdraw_exact, collector_custody, netfees_nonneg, netfees_delta, ext_input.
+Monitor names: deposited_eq_sum, locker_custody, withdraw_exact, collector_custody, netfees_nonneg, netfees_delta, ext_input,
+pow_ge_one, pow_zero_exp, reward_le_netfees, tracker_fraction.
 -/
 -- DRIVER: prefix=lk ns=Comdex.Drv.Locker
 namespace Comdex.Drv.Locker
@@ -63,10 +74,31 @@ def parseAcct? (t : String) : Option Acct :=
   else if t.startsWith "u" then (t.drop 1).toNat?.map Acct.user
   else none
 
-def parseLocker? (t : String) : Option (Nat × Locker) :=
+def parseLocker? (t : String) : Option ((Nat × Locker) × (Int × Int)) :=
   match t.splitOn ":" with
-  | [id, o, ap, a, n, r] => do
-    pure (← id.toNat?, { owner := ← o.toNat?, app := ← ap.toNat?, asset := ← a.toNat?, net := ← n.toInt?, ret := ← r.toInt? })
+  | [id, o, ap, a, n, r, bh, bt] => do
+    pure ((← id.toNat?, { owner := ← o.toNat?, app := ← ap.toNat?, asset := ← a.toNat?, net := ← n.toInt?, ret := ← r.toInt? }),
+          (← bh.toInt?, ← bt.toInt?))
+  | _ => none
+
+def parseTracker? (t : String) : Option ((Nat × Nat) × Dec) :=
+  match t.splitOn ":" with
+  | [id, ap, v] => do pure ((← id.toNat?, ← ap.toNat?), ← v.toInt?)
+  | _ => none
+
+def parseCL? (t : String) : Option ((Nat × Nat) × CL) :=
+  match t.splitOn ":" with
+  | [ap, a, lsr, bh, bt, st, dt, lot, dlot] => do
+    let c : CL := { lsr := ← lsr.toInt?, bh := ← bh.toInt?, bt := ← bt.toInt?, surplusThr := ← st.toInt?,
+                    debtThr := ← dt.toInt?, lot := ← lot.toInt?, debtLot := ← dlot.toInt? }
+    pure ((← ap.toNat?, ← a.toNat?), c)
+  | _ => none
+
+def parseAMap? (t : String) : Option ((Nat × Nat) × AMap) :=
+  match t.splitOn ":" with
+  | [ap, a, sp, d, ac] => do
+    let m : AMap := { surplus := ← parseBool? sp, debt := ← parseBool? d, active := ← parseBool? ac }
+    pure ((← ap.toNat?, ← a.toNat?), m)
   | _ => none
 
 def parseLk? (t : String) : Option ((Nat × Nat) × Lk) :=
@@ -94,8 +126,17 @@ def parseState (cfg : State) (t : String) : Option State := do
   let ks ← (section? parts "K") >>= parseList parseLk?
   let fs ← (section? parts "F") >>= parseList parseFee?
   let bs ← (section? parts "B") >>= parseList parseBal?
-  let maxId := ls.foldl (fun m p => max m p.1) cfg.lastId
-  pure { cfg with bank := bs, lockers := ls, lookup := ks, fees := fs, lastId := maxId }
+  let ts ← (section? parts "T") >>= parseList parseTracker?
+  let cs ← (section? parts "C") >>= parseList parseCL?
+  let ws ← (section? parts "W") >>= parsePairs
+  let am ← (section? parts "A") >>= parseList parseAMap?
+  let es ← (section? parts "E") >>= parseNatList
+  let xs ← (section? parts "X") >>= parseNatList
+  let gs ← (section? parts "G") >>= parseNatList
+  let maxId := ls.foldl (fun m p => max m p.1.1) cfg.lastId
+  pure { cfg with bank := bs, lockers := ls.map (·.1), lookup := ks, fees := fs, lastId := maxId,
+                  ltime := ls.map (fun p => (p.1.1, p.2)), trackers := ts, collk := cs, rewardWl := ws,
+                  amap := am, esmOn := es, killOn := xs, englishOn := gs }
 
 def parseRw? (t : String) : Option Rw :=
   if t = "none" then some .none
@@ -124,6 +165,14 @@ structure Norm where
   ks : List ((Nat × Nat) × Lk)
   fs : List ((Nat × Nat) × Int)
   bs : List ((Acct × Nat) × Int)
+  lt : List (Nat × (Int × Int))
+  ts : List ((Nat × Nat) × Dec)
+  cs : List ((Nat × Nat) × CL)
+  ws : List (Nat × Nat)
+  am : List ((Nat × Nat) × AMap)
+  es : List Nat
+  xs : List Nat
+  gs : List Nat
   deriving DecidableEq
 
 def dedupKeys {K V} [DecidableEq K] (s : Store K V) : Store K V :=
@@ -134,7 +183,15 @@ def norm (s : State) : Norm :=
     ks := (dedupKeys s.lookup).mergeSort (fun a b => leNN a.1 b.1)
     fs := (dedupKeys s.fees).mergeSort (fun a b => leNN a.1 b.1)
     bs := ((dedupKeys s.bank).filter (fun p => compared p.1.1 && p.2 != 0)).mergeSort
-            (fun a b => leNN (acctCode a.1.1) (acctCode b.1.1) && (acctCode a.1.1 != acctCode b.1.1 || a.1.2 ≤ b.1.2)) }
+            (fun a b => leNN (acctCode a.1.1) (acctCode b.1.1) && (acctCode a.1.1 != acctCode b.1.1 || a.1.2 ≤ b.1.2))
+    lt := (dedupKeys s.ltime).mergeSort (fun a b => a.1 ≤ b.1)
+    ts := ((dedupKeys s.trackers).filter (fun p => p.2 != 0)).mergeSort (fun a b => leNN a.1 b.1)
+    cs := (dedupKeys s.collk).mergeSort (fun a b => leNN a.1 b.1)
+    ws := s.rewardWl.eraseDups.mergeSort leNN
+    am := (dedupKeys s.amap).mergeSort (fun a b => leNN a.1 b.1)
+    es := s.esmOn.eraseDups.mergeSort (· ≤ ·)
+    xs := s.killOn.eraseDups.mergeSort (· ≤ ·)
+    gs := s.englishOn.eraseDups.mergeSort (· ≤ ·) }
 
 def showAcct : Acct → String
   | .user n => s!"u{n}" | .locker => "locker" | .collector => "collector" | .auction => "auction" | .auctionV2 => "auctionV2"
@@ -143,7 +200,13 @@ def showNorm (n : Norm) : String :=
   "L=" ++ ";".intercalate (n.ls.map fun p => s!"{p.1}:{p.2.owner}:{p.2.app}:{p.2.asset}:{p.2.net}:{p.2.ret}") ++
   "|K=" ++ ";".intercalate (n.ks.map fun p => s!"{p.1.1}:{p.1.2}:{p.2.deposited}:{showNatList p.2.ids}") ++
   "|F=" ++ ";".intercalate (n.fs.map fun p => s!"{p.1.1}:{p.1.2}:{p.2}") ++
-  "|B=" ++ ";".intercalate (n.bs.map fun p => s!"{showAcct p.1.1}:{p.1.2}:{p.2}")
+  "|B=" ++ ";".intercalate (n.bs.map fun p => s!"{showAcct p.1.1}:{p.1.2}:{p.2}") ++
+  "|LT=" ++ ";".intercalate (n.lt.map fun p => s!"{p.1}:{p.2.1}:{p.2.2}") ++
+  "|T=" ++ ";".intercalate (n.ts.map fun p => s!"{p.1.1}:{p.1.2}:{p.2}") ++
+  "|C=" ++ ";".intercalate (n.cs.map fun p => s!"{p.1.1}:{p.1.2}:{p.2.lsr}:{p.2.bh}:{p.2.bt}:{p.2.surplusThr}:{p.2.debtThr}:{p.2.lot}:{p.2.debtLot}") ++
+  "|W=" ++ ";".intercalate (n.ws.map fun p => s!"{p.1}:{p.2}") ++
+  "|A=" ++ ";".intercalate (n.am.map fun p => s!"{p.1.1}:{p.1.2}:{p.2.surplus}:{p.2.debt}:{p.2.active}") ++
+  "|E=" ++ showNatList n.es ++ "|X=" ++ showNatList n.xs ++ "|G=" ++ showNatList n.gs
 
 /-! ### monitors on the real states -/
 
@@ -157,11 +220,12 @@ def extOkB : Op → Bool
 def rwAmount : Rw → Int | .pay ρ => ρ | _ => 0
 
 /-- the per-call law `withdraw_exact` on the real balances before (`p`) and after (`r`) a successful call -/
-def monWithdrawExact (p r : State) : Op → Bool
+def monWithdrawExact (p r : State) (obs : Option Int) : Op → Bool
   | .withdraw u _ asset _ amt _ => bal r (.user u) asset == bal p (.user u) asset + amt
   | .close u _ asset id rw =>
+    -- full net balance = stored balance + the reward the REAL call credited (observed), not the model's
     match Store.get p.lockers id with
-    | some l => bal r (.user u) asset == bal p (.user u) asset + (l.net + rwAmount rw)
+    | some l => bal r (.user u) asset == bal p (.user u) asset + (l.net + obs.getD (rwAmount rw))
     | none => false
   | _ => true
 
@@ -176,51 +240,143 @@ def stateMonitors (p r : State) : List String :=
   (if !monDepositedEqSum r && monDepositedEqSum p then ["deposited_eq_sum"] else []) ++
   (if !monLockerCustody r && monLockerCustody p then ["locker_custody"] else []) ++
   (if !monCollectorCustody r && monCollectorCustody p then ["collector_custody"] else []) ++
-  (if !monNetFeesNonneg r && monNetFeesNonneg p then ["netfees_nonneg"] else [])
+  (if !monNetFeesNonneg r && monNetFeesNonneg p then ["netfees_nonneg"] else []) ++
+  -- the carried fraction of every reward tracker stays in [0, 1) (hypothesis of `C13.nothing_paid_for_zero_accrual`)
+  (if r.trackers.all (fun q => decide (0 ≤ q.2) && decide (q.2 < Dec.one)) then [] else ["tracker_fraction"])
 
 /-! ### one op line -/
 
-def applyOp (st : St) (seq : String) (op : Op) (obs : Option String) (outcome : String) (stateStr : String) : St × List String :=
+/-- `xbits:ybits:pbits` of the `math.Pow` call the harness mirrored, `none` for `-` -/
+structure PowInfo where
+  x : Nat
+  y : Nat
+  p : Nat
+
+def parsePow? (t : String) : Option (Option PowInfo) :=
+  if t = "-" || t = "" then some none else
+  match t.splitOn ":" with
+  | [x, y, p] => do pure (some { x := ← x.toNat?, y := ← y.toNat?, p := ← p.toNat? })
+  | _ => none
+
+def parsePows (t : String) : Option (List (Option PowInfo)) :=
+  if t = "" then some [] else (t.splitOn ",").mapM parsePow?
+
+def powVal (pi : Option PowInfo) : Option Int := pi.bind fun i => Accrual.ofBits i.p
+
+/-- checks on one mirrored `math.Pow` call against the arguments the model derives (`lsr`, `secs`), and the hypotheses the
+theorems make about its value -/
+def powChecks (seq : String) (lsr : Dec) (secs : Int) (pi : Option PowInfo) : List String :=
+  match pi with
+  | none => []
+  | some i =>
+    (if Accrual.ofBits i.x = some (Accrual.xF lsr) then [] else [s!"DIFF\t{seq}\tpow base: model={Accrual.xF lsr} impl bits={i.x}"]) ++
+    (if secs < 0 || Accrual.ofBits i.y = some (Accrual.yF secs) then [] else
+      [s!"DIFF\t{seq}\tpow exponent: model={Accrual.yF secs} impl bits={i.y}"]) ++
+    (match Accrual.ofBits i.p with
+     | some p =>
+       (if 0 ≤ lsr && 0 ≤ secs && p < (Accrual.U : Int) then [s!"MON\t{seq}\tpow_ge_one"] else []) ++
+       (if secs == 0 && p != (Accrual.U : Int) then [s!"MON\t{seq}\tpow_zero_exp"] else [])
+     | none => [])
+
+/-- where the model reaches `CalculationOfRewards` for a locker message: (rate, seconds) -/
+def accrueArgs (s : State) (ctx : Ctx) (app asset id : Nat) : Option (Dec × Int) :=
+  if (app, asset) ∉ s.rewardWl then none
+  else match Store.get s.collk (app, asset), Store.get s.lockers id, Store.get s.ltime id with
+    | some c, some _, some lt => if c.lsr = 0 then none else some (c.lsr, elapsed ctx c lt)
+    | _, _, _ => none
+
+/-- the ledger operation a timed operation amounts to (with the reward the model computed), for the per-call monitors -/
+def ledgerOp (s : State) (ctx : Ctx) : OpT → Op
+  | .create u a b x => .create u a b x
+  | .deposit u a b i x pw => .deposit u a b i x (accrue s ctx a b i pw).1
+  | .withdraw u a b i x pw => .withdraw u a b i x (accrue s ctx a b i pw).1
+  | .close u a b i pw => .close u a b i (accrue s ctx a b i pw).1
+  | .rewardCalc a i pw =>
+    match Store.get s.lockers i with
+    | some l => .rewardCalc a i (accrue s ctx a l.asset i pw).1
+    | none => .rewardCalc a i .none
+  | .lsrUpdate a b _ _ => .lsrChange a b []
+  | .wlReward a b => .whitelist a b
+  | .plain op => op
+
+def rewardKey (s : State) : OpT → Option (Nat × Nat × Nat)
+  | .deposit _ a b i _ _ | .withdraw _ a b i _ _ | .close _ a b i _ => some (a, b, i)
+  | .rewardCalc a i _ => (Store.get s.lockers i).map fun l => (a, l.asset, i)
+  | _ => none
+
+def opPow : OpT → Option (Option Int)
+  | .deposit _ _ _ _ _ pw | .withdraw _ _ _ _ _ pw | .close _ _ _ _ pw | .rewardCalc _ _ pw => some pw
+  | _ => none
+
+def applyOp (st : St) (seq : String) (ctx : Ctx) (opT : OpT) (pis : List (Option PowInfo)) (obs : Option String)
+    (outcome : String) (stateStr : String) : St × List String :=
   match parseState st.s stateStr with
   | none => (st, [s!"BAD\t{seq}\tcannot parse state {stateStr}"])
   | some r =>
     let p := st.s
     let ok := outcome == "ok"
+    let op := ledgerOp p ctx opT
     let ext := if extOkB op then [] else [s!"MON\t{seq}\text_input"]
-    let m := step p op
+    -- the mirrored math.Pow calls
+    let pows := match rewardKey p opT with
+      | some (a, b, i) =>
+        (match accrueArgs p ctx a b i with
+         | some (lsr, secs) => powChecks seq lsr secs (pis.headD none)
+         | none => [])
+      | none =>
+        match opT with
+        | .lsrUpdate a b _ _ =>
+          (match Store.get p.collk (a, b), Store.get p.lookup (a, b) with
+           | some old, some lk =>
+             (lk.ids.zip pis).flatMap fun (i, pi) =>
+               match Store.get p.ltime i with
+               | some lt => powChecks seq old.lsr (ctx.now - (if lt.1 = 0 then old.bt else lt.2)) pi
+               | none => []
+           | _, _ => [])
+        | _ => []
+    let m := stepT p ctx opT
     -- the second-generation closes are also accepted in their repaired form (notes/C13.md): a repaired tree checks clean
-    let m := match stepRepaired p op with
-      | some r' => if ok && norm r' == norm r && (m.map norm) != some (norm r) then some r' else m
-      | none => m
+    let m := match opT with
+      | .plain o =>
+        (match stepRepaired p o with
+         | some r' => if ok && norm r' == norm r && (m.map norm) != some (norm r) then some r' else m
+         | none => m)
+      | _ => m
     let dOutcome := if m.isSome != ok then [s!"DIFF\t{seq}\toutcome model={if m.isSome then "ok" else "rejected"} impl={outcome}"] else []
     let expect := if ok then m.getD p else p     -- a rejected message must leave the books untouched
     let dState := if norm expect == norm r then [] else
       [s!"DIFF\t{seq}\tstate model={showNorm (norm expect)}\timpl={showNorm (norm r)}"]
-    -- predicted reward against what the real call then paid
-    let dRw := match obs, ok with
-      | some o, true =>
-        let paid := match op with
-          | .deposit _ _ _ _ _ rw | .withdraw _ _ _ _ _ rw | .close _ _ _ _ rw | .rewardCalc _ _ rw => some (rwAmount rw)
-          | _ => none
-        match paid, o.toInt? with
-        | some x, some y => if x == y then [] else [s!"DIFF\t{seq}\treward predicted={x} observed={y}"]
-        | _, _ => []
-      | _, _ => []
+    -- the reward the model computed against what the real call then paid
+    let paid : Option Int := match op with
+      | .deposit _ _ _ _ _ rw | .withdraw _ _ _ _ _ rw | .close _ _ _ _ rw | .rewardCalc _ _ rw => some (rwAmount rw)
+      | _ => none
+    let dRw := match obs, ok, paid with
+      | some o, true, some x =>
+        (match o.toInt? with
+         | some y => if x == y then [] else [s!"DIFF\t{seq}\treward model={x} observed={y}"]
+         | none => [])
+      | _, _, _ => []
+    let mRw := match ok, paid, rewardKey p opT with
+      | true, some x, some (a, b, _) => if x ≤ fee p (a, b) then [] else [s!"MON\t{seq}\treward_le_netfees"]
+      | _, _, _ => []
     let mons :=
-      (if ok && !monWithdrawExact p r op then [s!"MON\t{seq}\twithdraw_exact"] else []) ++
+      (if ok && !monWithdrawExact p r (obs.bind (·.toInt?)) op then [s!"MON\t{seq}\twithdraw_exact"] else []) ++
       (if ok && !monNetFeesDelta p r op then [s!"MON\t{seq}\tnetfees_delta"] else []) ++
       (stateMonitors p r).map fun n => s!"MON\t{seq}\t{n}"
     -- accounts outside the projection (auction escrows) keep the balance the model computed
     let carried := (dedupKeys expect.bank).filter fun q => !compared q.1.1
-    ({ st with s := { r with bank := r.bank ++ carried } }, ext ++ dOutcome ++ dState ++ dRw ++ mons)
+    ({ st with s := { r with bank := r.bank ++ carried } }, ext ++ pows ++ dOutcome ++ dState ++ dRw ++ mRw ++ mons)
 
 def nat3 (a b c : String) : Option (Nat × Nat × Nat) := do pure (← a.toNat?, ← b.toNat?, ← c.toNat?)
+def ctx? (a b : String) : Option Ctx := do pure { now := ← a.toInt?, height := ← b.toInt? }
+def ctx0 : Ctx := { now := 0, height := 0 }
 
 def handle (st : St) (seq : String) (f : List String) : St × List String :=
   let bad := (st, [s!"BAD\t{seq}\tcannot parse {"\t".intercalate f}"])
+  let plain (op : Op) (o ss : String) := applyOp st seq ctx0 (.plain op) [] none o ss
   match f with
   | ["lk.begin", a, ap, ck] =>
-    match field? [a] "assets" >>= parseNatList, field? [ap] "apps" >>= parseNatList, field? [ck] "collk" >>= parsePairs with
+    match field? [a] "assets" >>= parseNatList, field? [ap] "apps" >>= parseNatList, field? [ck] "collk" >>= parseList parseCL? with
     | some as, some aps, some cks => ({ s := { assets := as, apps := aps, collk := cks } }, [])
     | _, _, _ => bad
   | ["lk.sync", ss] =>
@@ -229,73 +385,95 @@ def handle (st : St) (seq : String) (f : List String) : St × List String :=
     | some r =>
       let carried := (dedupKeys st.s.bank).filter fun q => !compared q.1.1
       ({ st with s := { r with bank := r.bank ++ carried } }, (stateMonitors st.s r).map fun n => s!"MON\t{seq}\t{n}")
+  | ["lk.config", "amap", ap, a, sp, d, ac, o, ss] =>
+    match ap.toNat?, a.toNat?, parseBool? sp, parseBool? d, parseBool? ac with
+    | some ap, some a, some sp, some d, some ac => plain (.config (.amap ap a { surplus := sp, debt := d, active := ac })) o ss
+    | _, _, _, _, _ => bad
+  | ["lk.config", kind, ap, on, o, ss] =>
+    match ap.toNat?, parseBool? on with
+    | some ap, some on =>
+      if kind = "esm" then plain (.config (.esm ap on)) o ss
+      else if kind = "kill" then plain (.config (.kill ap on)) o ss
+      else if kind = "english" then plain (.config (.english ap on)) o ss
+      else bad
+    | _, _ => bad
+  | ["lk.activate", g, ks, o, ss] =>
+    match g.toNat?, parsePairs ks with
+    | some g, some ks => plain (.activate (g == 2) ks) o ss
+    | _, _ => bad
   | ["lk.fund", u, a, x, o, ss] =>
     match u.toNat?, a.toNat?, x.toInt? with
-    | some u, some a, some x => applyOp st seq (.fund u a x) none o ss
+    | some u, some a, some x => plain (.fund u a x) o ss
     | _, _, _ => bad
   | ["lk.whitelist", ap, a, o, ss] =>
     match ap.toNat?, a.toNat? with
-    | some ap, some a => applyOp st seq (.whitelist ap a) none o ss
+    | some ap, some a => plain (.whitelist ap a) o ss
     | _, _ => bad
-  | ["lk.create", u, ap, a, x, o, ss] =>
-    match nat3 u ap a, x.toInt? with
-    | some (u, ap, a), some x => applyOp st seq (.create u ap a x) none o ss
+  | ["lk.wlreward", ap, a, o, ss] =>
+    match ap.toNat?, a.toNat? with
+    | some ap, some a => applyOp st seq ctx0 (.wlReward ap a) [] none o ss
     | _, _ => bad
-  | ["lk.deposit", u, ap, a, id, x, rw, obs, o, ss] =>
-    match nat3 u ap a, id.toNat?, x.toInt?, parseRw? rw with
-    | some (u, ap, a), some id, some x, some rw => applyOp st seq (.deposit u ap a id x rw) (some obs) o ss
+  | ["lk.create", t1, t2, u, ap, a, x, o, ss] =>
+    match ctx? t1 t2, nat3 u ap a, x.toInt? with
+    | some c, some (u, ap, a), some x => applyOp st seq c (.create u ap a x) [] none o ss
+    | _, _, _ => bad
+  | ["lk.deposit", t1, t2, u, ap, a, id, x, pw, obs, o, ss] =>
+    match ctx? t1 t2, nat3 u ap a, id.toNat?, x.toInt?, parsePow? pw with
+    | some c, some (u, ap, a), some id, some x, some pi => applyOp st seq c (.deposit u ap a id x (powVal pi)) [pi] (some obs) o ss
+    | _, _, _, _, _ => bad
+  | ["lk.withdraw", t1, t2, u, ap, a, id, x, pw, obs, o, ss] =>
+    match ctx? t1 t2, nat3 u ap a, id.toNat?, x.toInt?, parsePow? pw with
+    | some c, some (u, ap, a), some id, some x, some pi => applyOp st seq c (.withdraw u ap a id x (powVal pi)) [pi] (some obs) o ss
+    | _, _, _, _, _ => bad
+  | ["lk.close", t1, t2, u, ap, a, id, pw, obs, o, ss] =>
+    match ctx? t1 t2, nat3 u ap a, id.toNat?, parsePow? pw with
+    | some c, some (u, ap, a), some id, some pi => applyOp st seq c (.close u ap a id (powVal pi)) [pi] (some obs) o ss
     | _, _, _, _ => bad
-  | ["lk.withdraw", u, ap, a, id, x, rw, obs, o, ss] =>
-    match nat3 u ap a, id.toNat?, x.toInt?, parseRw? rw with
-    | some (u, ap, a), some id, some x, some rw => applyOp st seq (.withdraw u ap a id x rw) (some obs) o ss
+  | ["lk.rewardcalc", t1, t2, ap, id, pw, obs, o, ss] =>
+    match ctx? t1 t2, ap.toNat?, id.toNat?, parsePow? pw with
+    | some c, some ap, some id, some pi => applyOp st seq c (.rewardCalc ap id (powVal pi)) [pi] (some obs) o ss
     | _, _, _, _ => bad
-  | ["lk.close", u, ap, a, id, rw, obs, o, ss] =>
-    match nat3 u ap a, id.toNat?, parseRw? rw with
-    | some (u, ap, a), some id, some rw => applyOp st seq (.close u ap a id rw) (some obs) o ss
-    | _, _, _ => bad
-  | ["lk.rewardcalc", ap, id, rw, obs, o, ss] =>
-    match ap.toNat?, id.toNat?, parseRw? rw with
-    | some ap, some id, some rw => applyOp st seq (.rewardCalc ap id rw) (some obs) o ss
-    | _, _, _ => bad
-  | ["lk.lsr", ap, a, rws, o, ss] =>
-    match ap.toNat?, a.toNat?, parseRws rws with
-    | some ap, some a, some rws => applyOp st seq (.lsrChange ap a rws) none o ss
-    | _, _, _ => bad
+  | ["lk.lsr", t1, t2, ap, a, lsr, sthr, dthr, lot, dlot, pws, o, ss] =>
+    match ctx? t1 t2, ap.toNat?, a.toNat?, parseIntList (",".intercalate [lsr, sthr, dthr, lot, dlot]), parsePows pws with
+    | some c, some ap, some a, some [lsr, sthr, dthr, lot, dlot], some pis =>
+      applyOp st seq c (.lsrUpdate ap a { lsr := lsr, surplusThr := sthr, debtThr := dthr, lot := lot, debtLot := dlot } (pis.map powVal))
+        pis none o ss
+    | _, _, _, _, _ => bad
   | ["lk.feevault", ap, a, x, o, ss] =>
     match ap.toNat?, a.toNat?, x.toInt? with
-    | some ap, some a, some x => applyOp st seq (.feeVault ap a x) none o ss
+    | some ap, some a, some x => plain (.feeVault ap a x) o ss
     | _, _, _ => bad
   | ["lk.feeclose", ap, a, i, c, o, ss] =>
     match ap.toNat?, a.toNat?, i.toInt?, c.toInt? with
-    | some ap, some a, some i, some c => applyOp st seq (.feeClose ap a i c) none o ss
+    | some ap, some a, some i, some c => plain (.feeClose ap a i c) o ss
     | _, _, _, _ => bad
   | ["lk.penalty", ap, a, x, o, ss] =>
     match ap.toNat?, a.toNat?, x.toInt? with
-    | some ap, some a, some x => applyOp st seq (.penalty ap a x) none o ss
+    | some ap, some a, some x => plain (.penalty ap a x) o ss
     | _, _, _ => bad
   | ["lk.aucreturn", ap, a, x, o, ss] =>
     match ap.toNat?, a.toNat?, x.toInt? with
-    | some ap, some a, some x => applyOp st seq (.auctionReturn ap a x) none o ss
+    | some ap, some a, some x => plain (.auctionReturn ap a x) o ss
     | _, _, _ => bad
   | ["lk.decrease", ap, a, x, o, ss] =>
     match ap.toNat?, a.toNat?, x.toInt? with
-    | some ap, some a, some x => applyOp st seq (.decreaseNetFee ap a x) none o ss
+    | some ap, some a, some x => plain (.decreaseNetFee ap a x) o ss
     | _, _, _ => bad
   | ["lk.getamount", ap, a, x, o, ss] =>
     match ap.toNat?, a.toNat?, x.toInt? with
-    | some ap, some a, some x => applyOp st seq (.getAmount ap a x) none o ss
+    | some ap, some a, some x => plain (.getAmount ap a x) o ss
     | _, _, _ => bad
   | ["lk.surplusfund", ap, a, u, x, o, ss] =>
     match nat3 ap a u, x.toInt? with
-    | some (ap, a, u), some x => applyOp st seq (.surplusFund ap a u x) none o ss
+    | some (ap, a, u), some x => plain (.surplusFund ap a u x) o ss
     | _, _ => bad
   | ["lk.v2sclose", ap, a, u, x, o, ss] =>
     match nat3 ap a u, x.toInt? with
-    | some (ap, a, u), some x => applyOp st seq (.v2SurplusClose ap a u x) none o ss
+    | some (ap, a, u), some x => plain (.v2SurplusClose ap a u x) o ss
     | _, _ => bad
   | ["lk.v2dclose", ap, a, c, d, o, ss] =>
     match ap.toNat?, a.toNat?, c.toInt?, d.toInt? with
-    | some ap, some a, some c, some d => applyOp st seq (.v2DebtClose ap a c d) none o ss
+    | some ap, some a, some c, some d => plain (.v2DebtClose ap a c d) o ss
     | _, _, _, _ => bad
   | _ => (st, [s!"BAD\t{seq}\tunknown lk line"])
 
